@@ -194,7 +194,7 @@ class DataTypeParameter(StringParameter):
         self.valid_types = valid_types
 
     def clean(self, value, program=None, lineno=None):
-        if value in self.valid_types.values():
+        if isinstance(value, type) and value in self.valid_types.values():
             return value
 
         try:
